@@ -40,3 +40,9 @@ func VerifCacheEntries(c *loadingCache) (keys, values []interface{}) {
 func VerifCacheGet(c *loadingCache, key interface{}) (interface{}, error) {
 	return c.get(key)
 }
+
+// VerifResetRegexpCache replaces RegexpCache by a new default cache, so that
+// a simulated run does not depend on the patterns earlier runs compiled.
+func VerifResetRegexpCache() {
+	RegexpCache = defaultRegexpCache()
+}
